@@ -362,9 +362,10 @@ def rule_vecdeque(ck):
         b, t, bd = sel
         true_tgt = t["otherwise"] if all(int(v) == 0 for v, _ in t["arms"]) else [x for v, x in t["arms"] if int(v) == 1][0]
         reach_true = f.reach_from([true_tgt], avoid={f.ipdom(b)})
-        h_ge_l = (bd[0] == "Ge" and bd[1] == H) or (bd[0] == "Le" and bd[1] == L)
+        # H == L may go either way: S..cap followed by 0..0 is the same element sequence as S..S+L
+        h_ge_l = (bd[0] in ("Ge", "Gt") and bd[1] == H) or (bd[0] in ("Le", "Lt") and bd[1] == L)
         ok = h_ge_l and (cb in reach_true or cb == true_tgt) and wb not in reach_true
-    ck.ob("table.vecdeque_ring", "contiguous-iff-H>=L", ok, f"selector = {sel[2] if sel else None}", f.loc(sel[0]) if sel else f.loc(), what="VecDeque ring split chooses the wrong case at the boundary")
+    ck.ob("table.vecdeque_ring", "contiguous-when-H>L-wrapped-when-H<L", ok, f"selector = {sel[2] if sel else None}", f.loc(sel[0]) if sel else f.loc(), what="VecDeque ring split chooses the wrong case at the boundary")
     # S = head % cap guarded against cap == 0
     sd = defs_of(f, S) if isinstance(S, int) else []
     rems = [d for d in sd if d[0] == "assign" and d[2]["r"] == "bin" and d[2]["op"].startswith("Rem")]
